@@ -34,7 +34,9 @@ TECHNIQUE = ('runtime monitoring: post-condition oracle on every recorded '
              'trial (run_once wrapped at its binding site), history checker '
              'for seeds / run(k) interleavings, and a calibration monitor '
              'comparing observed failure frequency with the exact value from '
-             'full 4^n enumeration under a reference channel')
+             'full 4^n enumeration under a reference channel; digests of '
+             'seeded runs compared across interpreter sessions with other '
+             'hash seeds; support monitor on every sampled error')
 MANIFEST_TEXT = ('Each of the trials executed is re-derived field by field; '
                  'whole runs are repeated with the same seed and re-split '
                  'into run(k) pieces; on every n<=9 cell (code x decoder x '
